@@ -120,16 +120,9 @@ let register () =
         (match g.RemuxGroup.g_hls with
          | None -> ()
          | Some h ->
-           (* segment files in creation order, contents from the Write operations *)
-           let order = ref [] and content = Hashtbl.create 16 in
-           Stdlib.List.iter (function
-               | HlsFs.OCreate (HlsFs.PTs (n, i)) -> order := (n, i) :: !order; Hashtbl.replace content (n, i) (Buffer.create 1024)
-               | HlsFs.OWrite (HlsFs.PTs (n, i), b) ->
-                 (match Hashtbl.find_opt content (n, i) with Some buf -> Buffer.add_string buf (hex_of_bytes b) | None -> ())
-               | _ -> ()) h.RemuxGroup.h_ops;
-           let segs = Stdlib.List.rev_map (fun k ->
-               let s = Buffer.contents (Hashtbl.find content k) in if s = "" then "-" else s) !order in
-           parts := !parts @ ["hls=" ^ (if segs = [] then "none" else String.concat "," segs)]);
+           (* every call hls.Muxer made on the file system layer, in order (segment writes, play lists, renames) *)
+           let ops = h.RemuxGroup.h_ops in
+           parts := !parts @ ["hlsops=" ^ (if ops = [] then "none" else String.concat ";" (Stdlib.List.map (Drv_c10.show_op c) ops))]);
         (* RTSP players: the SDP, then the packets with the sequence numbers relative to the first one of
            the track and the SSRC zeroed (both random in lal); players that never got an SDP last *)
         let rtsp_parts = ref [] in
